@@ -109,10 +109,10 @@ def gen_op(rng, state):
         r = rng.random()
         return {"op": "reset", "elements": r < 0.8, "default_parameters": rng.random() < 0.7}
     if op == "set_default":
-        b = rng.choice(["R", "C", "Q", "W", "L"])
+        b = rng.choice(["R", "C", "Q", "W", "L", "K", "Ky", "La", "Tlm"])  # public and private built-ins
         return {"op": "set_default", "builtin": b, "factor": rng.choice([0.5, 2.0, 1.1])}
     if op == "reset_defaults":
-        return {"op": "reset_defaults", "which": rng.choice([None, None, "R", "Q", ["R", "C"], ["W"]])}
+        return {"op": "reset_defaults", "which": rng.choice([None, None, "R", "Q", ["R", "C"], ["W"], "K", ["Ky", "La"]])}
     return {"op": "parse", "text": rng.choice(syms + ["L", "La", "Ls", "R", "K"] + [syms[0] + syms[1], "R" + syms[0]])}
 
 
